@@ -41,7 +41,8 @@ func TestC12(t *testing.T) {
 	mkdoc := func() map[string]any {
 		var d map[string]any
 		json.Unmarshal([]byte(`{"t":[{"id":1,"a":3,"g":"x","k":[{"v":1},{"v":5}]},{"id":2,"a":1,"g":"y","k":[{"v":2}]},{"id":3,"a":2,"g":"x","k":[]},{"id":4,"a":3,"g":"z","k":[{"v":9}]}],
-		 "r":[{"m":1,"w":"p"},{"m":3,"w":"q"},{"m":3,"w":"r"}]}`), &d)
+		 "r":[{"m":1,"w":"p"},{"m":3,"w":"q"},{"m":3,"w":"r"}],
+		 "n":[[{"a":1,"k":[{"v":1}]},{"a":4,"k":[]}],[{"a":2,"k":[{"v":3}]}]]}`), &d)
 		return d
 	}
 	genql.RegisterFunction("zzslow", func(_ *genql.Query, _ map[string]any, _ *genql.FunctionOptions, args []any) (any, error) {
@@ -71,6 +72,13 @@ func TestC12(t *testing.T) {
 		{"SELECT id FROM t WHERE EXISTS (SELECT v FROM k WHERE v > 1)", false},
 		{"SELECT id FROM t UNION SELECT m FROM r", false},
 		{"SELECT SETVAR('k', a), GETVAR('k') AS v FROM t", false},
+		{"SELECT ('a', a + 1) AS x, (a, id) AS y FROM t", false},
+		{"WITH c AS (SELECT id FROM t) SELECT c FROM dual", false},
+		{"SELECT a, (SELECT v FROM k) AS s FROM n", false},
+		{"SELECT a, ASYNC.ZZSLOW(a) AS s FROM n", false},
+		{"SELECT x.id, y.m FROM (SELECT id, ASYNC.ZZSLOW(a) AS s, (SELECT v FROM k) AS q FROM t) x JOIN r y ON x.id = y.m", true},
+		{"SELECT id, AWAIT((SELECT v FROM k)) AS s FROM t", false},
+		{"SELECT q.id, q.s FROM (SELECT id, ASYNC.ZZSLOW(a) AS s FROM t) q", false},
 	}
 	r := &result{Property: "C12", Name: "results-are-plain-and-repeatable", Bound: fmt.Sprintf("%d queries over the expression forms of every clause, each evaluated 8 times on equal inputs", len(queries))}
 	for _, c := range queries {
